@@ -15,6 +15,16 @@
  *   rem <idx>         -> rem 0 | rem 1 kid:vid (ids seen by the free callbacks) / dump
  *   remf <kid>        -> remf <idx> [<0|1> kid:vid] / dump     (find, then remove that node)
  *   drain             -> drain kid:vid .. / dump
+ *   clr <N|C|K|V>     -> clr K kid .. V vid .. / dump    (muggle_heap_clear; N: all four arguments NULL, C: counting
+ *                        free callbacks, K / V: only the key / only the value callback; the lists give the ids each
+ *                        callback was handed, in call order)
+ *   rem / remf take an optional last token N | K | V: free callbacks all NULL / key only / value only (default: both);
+ *        a callback that is not passed sees nothing (id 0); a callback called more than once is reported (CALLS)
+ *   cmp <sign|diff|big>  (no output) comparator of the following ops: -1/0/1, the difference of the keys, or twice
+ *        the difference (never +-1): only the SIGN of the comparator's result may matter
+ *   dumps <on|off>       (no output) switch the dump line after each heap op off / on; `dump` prints one on demand
+ *   reinit <cap>      -> reinit K kid .. V vid .. / init <0|1> / dump   (muggle_heap_destroy with the counting
+ *                        callbacks, then muggle_heap_init of the same heap object with capacity <cap>)
  *   dump = "heap <size> <capacity> : kid:vid .." for nodes[1..size]
  *
  * Arrays are exact-size heap blocks (ASan red zones on both sides, also for
@@ -39,6 +49,7 @@ static int has_F(const char *line)
 	return n >= 2 && line[n - 1] == 'F' && line[n - 2] == ' ';
 }
 
+static int g_cmp_mode;     /* 0: -1/0/1   1: difference   2: twice the difference (never +-1) */
 static int cmp_kobj(const void *a, const void *b)
 {
 	if (a == NULL || b == NULL) {
@@ -46,6 +57,8 @@ static int cmp_kobj(const void *a, const void *b)
 		abort();
 	}
 	int x = ((const kobj_t *)a)->key, y = ((const kobj_t *)b)->key;
+	if (g_cmp_mode == 1) return x - y;           /* keys are within +-10^6: no overflow */
+	if (g_cmp_mode == 2) return 2 * (x - y);
 	return x < y ? -1 : (x > y ? 1 : 0);
 }
 
@@ -145,10 +158,51 @@ static kobj_t *keys;   /* 0..nkeys, [0] unused */
 static int *vals;      /* value objects: vals[v] == v */
 static long nkeys;
 #define NVALS 4096
-static int freed_k, freed_v;
+static int freed_k, freed_v, calls_k, calls_v, g_dumps = 1;
 
-static void kfree_cb(void *pool, void *data) { (void)pool; freed_k = ((kobj_t *)data)->id; }
-static void vfree_cb(void *pool, void *data) { (void)pool; freed_v = *(int *)data; }
+static void kfree_cb(void *pool, void *data) { (void)pool; freed_k = ((kobj_t *)data)->id; calls_k++; }
+static void vfree_cb(void *pool, void *data) { (void)pool; freed_v = *(int *)data; calls_v++; }
+/* last token of a rem / remf line: which free callbacks are passed */
+static void cb_choice(const char *line, muggle_dsaa_data_free *kf, muggle_dsaa_data_free *vf)
+{
+	size_t n = strlen(line);
+	char c = (n >= 2 && line[n - 2] == ' ') ? line[n - 1] : 0;
+	*kf = (c == 'N' || c == 'V') ? NULL : kfree_cb;
+	*vf = (c == 'N' || c == 'K') ? NULL : vfree_cb;
+	freed_k = freed_v = calls_k = calls_v = 0;
+}
+static void print_calls(void)
+{
+	if (calls_k > 1 || calls_v > 1) printf(" CALLS %d %d", calls_k, calls_v);
+	printf("\n");
+}
+
+/* counting free callbacks (clear / destroy): every id handed to a callback is logged, in call order;
+ * the pool argument must be the one that was passed in */
+#define NLOG 65536
+static int klog[NLOG], vlog[NLOG], nklog, nvlog, badpool;
+static int kpool_tag, vpool_tag;
+static int kid_of(void *k);
+static int vid_of(void *v);
+static void kcount_cb(void *pool, void *data)
+{
+	if (pool != &kpool_tag) badpool = 1;
+	if (nklog < NLOG) klog[nklog++] = kid_of(data);
+}
+static void vcount_cb(void *pool, void *data)
+{
+	if (pool != &vpool_tag) badpool = 1;
+	if (nvlog < NLOG) vlog[nvlog++] = vid_of(data);
+}
+static void print_logs(const char *op)
+{
+	printf("%s K", op);
+	for (int i = 0; i < nklog; i++) printf(" %d", klog[i]);
+	printf(" V");
+	for (int i = 0; i < nvlog; i++) printf(" %d", vlog[i]);
+	if (badpool) printf(" BADPOOL");
+	printf("\n");
+}
 
 static int kid_of(void *k)
 {
@@ -165,7 +219,9 @@ static int vid_of(void *v)
 	if (q >= vals && q < vals + NVALS) return *q;
 	return -1;
 }
-static void dump(void)
+static void dump_now(void);
+static void dump(void) { if (g_dumps) dump_now(); }
+static void dump_now(void)
 {
 	printf("heap %llu %llu :", (unsigned long long)heap.size, (unsigned long long)heap.capacity);
 	if (heap.nodes == NULL) { printf(" nodes=NULL\n"); return; }
@@ -182,7 +238,7 @@ static void heap_cleanup(void)
 	free(vals); vals = NULL;
 }
 
-static void case_begin(void) { have_heap = 0; keys = NULL; vals = NULL; nkeys = 0; g_fail_alloc = 0; }
+static void case_begin(void) { have_heap = 0; keys = NULL; vals = NULL; nkeys = 0; g_fail_alloc = 0; g_cmp_mode = 0; g_dumps = 1; }
 static void case_end(void) { heap_cleanup(); }
 
 static void case_line(char *line)
@@ -193,6 +249,11 @@ static void case_line(char *line)
 	if (strcmp(op, "sorts") == 0) return;   /* header line of a case made of sort lines */
 	if (strcmp(op, "sort") == 0) { do_sort(line); return; }
 	if (strcmp(op, "adv") == 0) { do_adv(line); return; }
+	if (strcmp(op, "cmp") == 0) {
+		g_cmp_mode = strstr(line, "diff") ? 1 : (strstr(line, "big") ? 2 : 0);
+		return;
+	}
+	if (strcmp(op, "dumps") == 0) { g_dumps = strstr(line, "off") ? 0 : 1; return; }
 	if (strcmp(op, "heap") == 0) {
 		heap_cleanup();
 		long cap = 0;
@@ -240,19 +301,41 @@ static void case_line(char *line)
 		printf("find %lld\n", nd ? (long long)(nd - heap.nodes) : 0LL);
 	} else if (strcmp(op, "rem") == 0) {
 		if (a < 0 || (uint64_t)a > heap.capacity) { printf("?\n"); return; }
-		freed_k = freed_v = 0;
-		bool r = muggle_heap_remove(&heap, &heap.nodes[a], kfree_cb, NULL, vfree_cb, NULL);
-		if (r) printf("rem 1 %d:%d\n", freed_k, freed_v); else printf("rem 0\n");
+		muggle_dsaa_data_free kfn, vfn;
+		cb_choice(line, &kfn, &vfn);
+		bool r = muggle_heap_remove(&heap, &heap.nodes[a], kfn, NULL, vfn, NULL);
+		if (r) { printf("rem 1 %d:%d", freed_k, freed_v); print_calls(); } else printf("rem 0\n");
 		dump();
 	} else if (strcmp(op, "remf") == 0) {
 		if (a < 1 || a > nkeys) { printf("?\n"); return; }
 		muggle_heap_node_t *nd = muggle_heap_find(&heap, &keys[a]);
 		if (nd == NULL) { printf("remf 0\n"); dump(); return; }
 		long long idx = (long long)(nd - heap.nodes);
-		freed_k = freed_v = 0;
-		bool r = muggle_heap_remove(&heap, nd, kfree_cb, NULL, vfree_cb, NULL);
-		printf("remf %lld %d %d:%d\n", idx, r ? 1 : 0, freed_k, freed_v);
+		muggle_dsaa_data_free kfn, vfn;
+		cb_choice(line, &kfn, &vfn);
+		bool r = muggle_heap_remove(&heap, nd, kfn, NULL, vfn, NULL);
+		printf("remf %lld %d %d:%d", idx, r ? 1 : 0, freed_k, freed_v);
+		print_calls();
 		dump();
+	} else if (strcmp(op, "clr") == 0) {
+		char mode[8] = "";
+		if (sscanf(line, "%*s %7s", mode) != 1 || strlen(mode) != 1 || strchr("NCKV", mode[0]) == NULL) { printf("?\n"); return; }
+		nklog = nvlog = badpool = 0;
+		muggle_heap_clear(&heap, (mode[0] == 'C' || mode[0] == 'K') ? kcount_cb : NULL, &kpool_tag,
+			(mode[0] == 'C' || mode[0] == 'V') ? vcount_cb : NULL, &vpool_tag);
+		print_logs("clr");
+		dump();
+	} else if (strcmp(op, "reinit") == 0) {
+		if (a < 0) { printf("?\n"); return; }
+		nklog = nvlog = badpool = 0;
+		muggle_heap_destroy(&heap, kcount_cb, &kpool_tag, vcount_cb, &vpool_tag);
+		print_logs("reinit");
+		bool ok = muggle_heap_init(&heap, cmp_kobj, (size_t)a);
+		have_heap = ok ? 1 : 0;
+		printf("init %d\n", ok ? 1 : 0);
+		if (ok) dump_now(); else printf("heap -\n");
+	} else if (strcmp(op, "dump") == 0) {
+		dump_now();
 	} else if (strcmp(op, "drain") == 0) {
 		printf("drain");
 		while (!muggle_heap_is_empty(&heap)) {
